@@ -28,7 +28,9 @@ TABLES = {
     "anon": [("anon", None, None, "/")],
     "mixed": [("anon", None, None, "/"), ("u1", "u1", None, "/"), ("u2", "u2", "pw2", "/d")],
     "noanon": [("u1", "u1", None, "/"), ("u2", "u2", "pw2", "/d")],
+    "twopw": [("anon", None, None, "/"), ("u2", "u2", "pw2", "/d"), ("u3", "u3", "pw3", "/")],
 }
+MANAGERS = ("memory", "slow", "digest")
 VERB_ARGS = [("PWD", ""), ("CWD", "d"), ("CDUP", ""), ("MKD", "newdir"), ("RMD", "d/e"), ("DELE", "f"), ("RNFR", "f"), ("RNTO", "f2"), ("MLST", "f"), ("MLSD", ""), ("LIST", ""), ("RETR", "f"), ("STOR", "up"), ("APPE", "f"), ("TYPE", "I"), ("PBSZ", "0"), ("PROT", "P"), ("PASV", ""), ("EPSV", ""), ("ABOR", ""), ("REST", "3"), ("SYST", ""), ("NOOP", ""), ("SITE", "x")]
 
 
@@ -59,13 +61,14 @@ def core_cases(seed):
                 ops = [list(x) for x in pre] + [[v, a, {"connect": "before"}] if v in M.TRANSFER else [v, a]] + [["PWD", ""]]
                 if v == "RNTO":
                     ops = [list(x) for x in pre] + [["RNFR", "f"], ["RNTO", a], ["PWD", ""]]
-                out.append({"seed": seed * 10000 + i, "table": table, "ops": ops, "core": f"{table}/{pname}/{v}"})
-                i += 1
+                for mgr in MANAGERS:
+                    out.append({"seed": seed * 10000 + i, "table": table, "ops": ops, "core": f"{table}/{pname}/{v}", "manager": mgr})
+                    i += 1
     return out
 
 
 def gen_history(rnd, table):
-    names = ["anonymous", "u1", "u2", "ghost", ""]
+    names = ["anonymous", "u1", "u2", "u3", "ghost", ""]
     ops = []
     n = rnd.choice([3, 6, 10, 16, 25])
     while len(ops) < n:
@@ -73,7 +76,7 @@ def gen_history(rnd, table):
         if x < 0.25:
             ops.append(["USER", rnd.choice(names)])
         elif x < 0.40:
-            ops.append(["PASS", rnd.choice(["pw2", "pw2", "bad", "", "pw1"])])
+            ops.append(["PASS", rnd.choice(["pw2", "pw2", "bad", "", "pw1", "pw3"])])
         else:
             v, a = rnd.choice(VERB_ARGS)
             if v in M.TRANSFER:
@@ -156,14 +159,122 @@ def run_pending_case(case):
     return res
 
 
+def gen_burst(rnd, table):
+    logins = [login for (tag, login, pw, home) in TABLES[table] if tag != "anon"] + ["anonymous", "ghost"]
+    pws = [pw for (tag, login, pw, home) in TABLES[table] if pw] + ["bad"]
+    pre = rnd.choice([[], [], [["USER", rnd.choice(logins)]], [["USER", "u2"], ["PASS", "pw2"]]])
+    burst = []
+    for _ in range(rnd.randint(2, 6)):
+        x = rnd.random()
+        if x < 0.5:
+            burst.append(["USER", rnd.choice(logins)])
+        elif x < 0.8:
+            burst.append(["PASS", rnd.choice(pws)])
+        else:
+            burst.append(rnd.choice([["PWD", ""], ["NOOP", ""], ["MKD", "bd"], ["EPSV", ""]]))
+    return pre, burst
+
+
+def run_burst_case(case):
+    """Login commands arriving in one segment while the user manager suspends (a database
+    lookup): their handlers overlap.  Whatever the interleaving, once everything has been
+    answered the session may be authorised as a password-protected account only if that
+    account's password was supplied after a USER naming it, and only as an account some USER
+    line named."""
+    rng = random.Random(case["seed"] * 7919 + 53)
+    net = scenario.random_net(rng, allow_small_pipe=False)
+    table = case["table"]
+    sc = {"seed": case["seed"], "server": {"block_size": 16, "wait_future_timeout": 5.0, "users": spec_users(table), "user_manager": case.get("manager", "slow")}, "net": net, "fs": {"delay": None}}
+    viol = []
+    info = {}
+    world = scenario.setup_world(sc)
+    with world:
+        server = scenario.finish_setup(world, sc)
+        world.populate({k: v for k, v in TREE.items() if k != "/"})
+        peer = RawPeer(world, "s0", reply_timeout=100.0)
+        pwof = {login: pw for (tag, login, pw, home) in TABLES[table] if tag != "anon"}
+        has_anon = any(tag == "anon" for (tag, *_r) in TABLES[table])
+
+        def resolves(name):
+            if name in pwof:
+                return name
+            return None if not has_anon else "<anon>"
+
+        async def main():
+            await server.start("127.0.0.1", 2121)
+            await peer.connect()
+            for v, a in case["pre"]:
+                await peer.cmd(f"{v} {a}".strip())
+            lines = [f"{v} {a}".strip() for v, a in case["burst"]]
+            for l in lines:
+                peer.note("C", l)
+            peer.writer.write("".join(l + "\r\n" for l in lines).encode())
+            replies = []
+            try:
+                for _ in lines:
+                    replies.append((await peer.reply(60.0))[0])
+            except Exception:
+                pass
+            info["replies"] = replies
+            await asyncio.sleep(5.0)
+            conns = list(server.connections.values())
+            who = None
+            logged = False
+            if conns:
+                c = conns[0]
+                logged = c.future.logged.done()
+                if c.future.user.done():
+                    who = c.user.login if c.user.login is not None else "<anon>"
+            try:
+                code, _ = await peer.cmd("PWD")
+            except Exception:
+                code = None
+            info["final"] = (who, logged, code)
+            seq = [list(x) for x in case["pre"]] + [list(x) for x in case["burst"]]
+            if code == "257" or logged:
+                subj = who or "nobody"
+                named = [i for i, (v, a) in enumerate(seq) if v == "USER" and resolves(a) == who]
+                if who is None or not named:
+                    viol.append({"clause": "authorised-as-a-user-never-named", "subject": subj, "detail": f"after {seq} the session is served (PWD {code}) as {who!r}, which no USER line named"})
+                elif who in pwof and pwof[who] is not None:
+                    ok = any(v == "PASS" and a == pwof[who] and any(j < i for j in named) for i, (v, a) in enumerate(seq))
+                    if not ok:
+                        viol.append({"clause": "authorised-without-its-password", "subject": "pipelined-login", "detail": f"after {case['pre']} then, in one segment, {case['burst']} (replies {replies}) the session is served (PWD {code}) as {who!r} although {who!r}'s password was never supplied"})
+            peer.close()
+            await asyncio.sleep(1)
+            await asyncio.wait_for(server.close(), 1e4)
+
+        world.run(main())
+        gc.collect()
+        if world.outcome not in ("ok", "budget", "deadlock"):
+            raise common.HarnessError(f"scenario failed: {world.outcome}: {world.error!r}")
+        st = getattr(server.user_manager, "sim_stats", {"calls": 0, "suspended": 0})
+        res = {
+            "digest": world.digest([tuple(x[1:]) for x in peer.transcript]),
+            "nontrivial": st["suspended"] > 0 and len(info.get("replies", [])) >= 2,
+            "vtime": world.loop.time() - 1000.0,
+            "events": world.net.seq,
+            "steps": world.loop.steps,
+            "outcome": world.outcome,
+            "counters": {"probe.pipelined_login_burst": 1, "probe.user_manager_suspended": st["suspended"], "probe.burst_left_session_authorised": int(bool(info.get("final", (None, False, None))[1]))},
+            "groups": {"table": {table + "/burst": 1}},
+            "violations": viol,
+        }
+        if case.get("want_sample"):
+            res["sample"] = {"case": case, "final": info.get("final"), "transcript": [list(x) for x in peer.transcript][:30]}
+    return res
+
+
 def run_case(case):
     if case.get("kind") == "pending":
         return run_pending_case(case)
+    if case.get("kind") == "burst":
+        return run_burst_case(case)
     rng = random.Random(case["seed"] * 7919 + 47)
     net = scenario.random_net(rng, allow_small_pipe=False)
     if case.get("net"):
         net.update(case["net"])
-    sc = {"seed": case["seed"], "server": {"block_size": 16, "wait_future_timeout": 5.0, "users": spec_users(case["table"])}, "net": net, "fs": {"delay": None}}
+    sc = {"seed": case["seed"], "server": {"block_size": 16, "wait_future_timeout": 5.0, "users": spec_users(case["table"]), "user_manager": case.get("manager")}, "net": net, "fs": {"delay": None}}
     viol = []
     info = {"unauth_cmds": 0}
     world = scenario.setup_world(sc)
@@ -227,8 +338,8 @@ def run_case(case):
             "events": world.net.seq,
             "steps": world.loop.steps,
             "outcome": world.outcome,
-            "counters": {"commands_checked": n, "commands_sent_while_not_logged_in": info["unauth_cmds"]},
-            "groups": {"table": {case["table"]: 1}},
+            "counters": {"commands_checked": n, "commands_sent_while_not_logged_in": info["unauth_cmds"], "probe.user_manager_suspended": getattr(server.user_manager, "sim_stats", {}).get("suspended", 0)},
+            "groups": {"table": {case["table"] + "/" + (case.get("manager") or "memory"): 1}},
             "violations": out,
         }
         if case.get("want_sample"):
@@ -254,6 +365,16 @@ def minimise(case, violation):
     cur = copy.deepcopy(case)
     cur.pop("want_sample", None)
     if cur.get("kind") == "pending":
+        return cur, violation
+    if cur.get("kind") == "burst":
+        for key in ("pre", "burst"):
+            i = len(cur[key]) - 1
+            while i >= 0:
+                trial = copy.deepcopy(cur)
+                del trial[key][i]
+                if bad(trial):
+                    cur = trial
+                i -= 1
         return cur, violation
     i = len(cur["ops"]) - 1
     budget = 80
@@ -310,8 +431,12 @@ def main(argv=None):
                 s = a.seed * 1_000_000 + i
                 rnd = random.Random(s * 5 + 2)
                 t = rnd.choice(list(TABLES))
-                c = {"seed": s, "table": t, "ops": gen_history(rnd, t)}
-                if i == 0:
+                if i % 4 == 3:
+                    pre, burst = gen_burst(rnd, t)
+                    c = {"kind": "burst", "seed": s, "table": t, "pre": pre, "burst": burst, "manager": rnd.choice(["slow", "digest", "slow", "memory"])}
+                else:
+                    c = {"seed": s, "table": t, "ops": gen_history(rnd, t), "manager": rnd.choice(MANAGERS)}
+                if i in (0, 3):
                     c["want_sample"] = True
                 yield c
 
